@@ -239,12 +239,12 @@ def same_class(summary, cls):
     return any((v["prop"], v["oracle"]) == cls for v in summary.get("violations", []))
 
 
-def shrink(spec, cls, budget_s=90):
+def shrink(spec, cls, budget_s=90, accept=None):
     """Delta-debug the explicit operation list (then simplify faults and the
     schedule) while the same violation class persists."""
     from . import shrinker
 
-    return shrinker.minimise(spec, cls, execute, same_class, budget_s)
+    return shrinker.minimise(spec, cls, execute, same_class, budget_s, accept)
 
 
 # --------------------------------------------------------------------- main
@@ -385,7 +385,8 @@ def main(argv=None):
         viol = v
         if not a.no_shrink:
             try:
-                final, viol2 = shrink(spec, cls, cfg.get("shrink_budget", 90))
+                final, viol2 = shrink(spec, cls, cfg.get("shrink_budget", 90),
+                                      accept=lambda v_, _p=prop: match_known(known, _p, v_) is None)
                 if viol2 is not None:
                     viol = viol2
             except Exception as e:
